@@ -608,7 +608,10 @@ class ModulePrinter(ExpressionPrinter):
 
         if node.guard is not None:
             self.printer.keyword('if')
-            self.visit(node.guard)
+            if isinstance(node.guard, (ast.Yield, ast.YieldFrom)) or (isinstance(node.guard, ast.Tuple) and len(node.guard.elts) > 0):
+                self._expression(node.guard)
+            else:
+                self.visit(node.guard)
 
         self.printer.delimiter(':')
         self._suite(node.body)
